@@ -112,6 +112,7 @@ def imm(s):
 class Machine:
     STACK = 0x7ff000
     STATE = 0x100000
+    SP_ALIGN = 1
 
     def __init__(self, arch):
         self.arch = arch
@@ -202,9 +203,28 @@ class Machine:
             steps += 1
             if steps > 200000:
                 raise AsmError('no termination')
+            # the ABI's stack alignment holds at every instruction boundary (an interrupt or signal may arrive)
+            if self.SP_ALIGN > 1 and self.cur_sp() % self.SP_ALIGN: self.bad_access.append(('sp-misaligned', self.cur_sp(), self.SP_ALIGN))
         guard = 0 if self.bad_access else 1
         regs, sp = self.check_abi()
         return dict(out=self.get_state(), regs=regs, sp=sp, guard=guard, steps=steps, bad=self.bad_access[:4])
+
+    def run_free(self):
+        """ascon_backend_free(state): whatever it wipes in registers, it keeps the callee-saved ones, the stack pointer
+        and all memory outside its own frame"""
+        if 'ascon_backend_free' not in self.labels: return None
+        self.reset_mem(); self.put_state(bytes(range(40)))
+        self.bad_access = []; self.setting_up = True; self.setup(0, 0); self.setting_up = False
+        before = dict(self.mem)
+        pc = self.labels['ascon_backend_free']; steps = 0; self.done = False
+        while not self.done:
+            if pc >= len(self.ins): raise AsmError('ran off the end')
+            mn, ops, raw = self.ins[pc]
+            npc = self.step(mn, ops, raw, pc); pc = pc + 1 if npc is None else npc; steps += 1
+            if steps > 10000: raise AsmError('no termination')
+        regs, sp = self.check_abi()
+        state_same = all(self.mem.get(self.STATE + i, 0) == before.get(self.STATE + i, 0) for i in range(40))
+        return dict(regs=regs, sp=sp, guard=1 if (not self.bad_access and state_same) else 0, steps=steps)
 
     def target(self, label):
         if label not in self.labels:
@@ -220,6 +240,7 @@ class RiscV(Machine):
            't3': 28, 't4': 29, 't5': 30, 't6': 31}
     SAVED = [8, 9] + list(range(18, 28)) + [3, 4]
     caller_area = 0
+    SP_ALIGN = 16            # RV32I/RV64I psABI (ILP32E: 4, set in setup)
 
     def reg(self, n):
         n = n.strip()
@@ -232,6 +253,7 @@ class RiscV(Machine):
     def setup(self, r, dirty):
         nreg = 16 if self.arch == 'riscv32e' else 32
         self.nreg = nreg
+        self.SP_ALIGN = 4 if self.arch == 'riscv32e' else 16
         self.x = [(0x5a5a0000 + 0x101 * i) & self.mask for i in range(32)]
         self.x[0] = 0
         self.x[2] = self.STACK
@@ -315,6 +337,7 @@ class RiscV(Machine):
 # ------------------------------------------------------------------------------------------ AArch64
 class A64(Machine):
     caller_area = 0
+    SP_ALIGN = 16
 
     def setup(self, r, dirty):
         self.x = [(0x1111111100000000 + 0x01010101 * i) & M64 for i in range(32)]
@@ -412,6 +435,7 @@ class A64(Machine):
 # ------------------------------------------------------------------------------------------ ARM 32 (ARM, Thumb-2, Thumb-1)
 class Arm32(Machine):
     caller_area = 0
+    SP_ALIGN = 4             # AAPCS32: a multiple of 4 at all times (8 at public interfaces = entry and exit, checked by sp restored)
     NAMES = {'sp': 13, 'lr': 14, 'pc': 15, 'ip': 12, 'fp': 11, 'sl': 10}
 
     def setup(self, r, dirty):
@@ -559,6 +583,7 @@ class Arm32(Machine):
 
 # ------------------------------------------------------------------------------------------ m68k
 class M68k(Machine):
+    SP_ALIGN = 2
     caller_area = 12       # return address and the two stack arguments belong to the caller's frame
 
     def setup(self, r, dirty):
@@ -650,6 +675,7 @@ class M68k(Machine):
 # ------------------------------------------------------------------------------------------ Xtensa (call0 ABI)
 class Xtensa(Machine):
     caller_area = 0
+    SP_ALIGN = 16
 
     def setup(self, r, dirty):
         self.ar = [(0x55550000 + 0x101 * i) & M32 for i in range(16)]
@@ -928,6 +954,18 @@ class Avr(Machine):
         regs, sp = self.check_abi()
         return dict(out=bytes(self.mem.get(self.STATE + i, 0) for i in range(40)), regs=regs, sp=sp, guard=0 if self.bad_access else 1, steps=steps, bad=self.bad_access[:4])
 
+    def run_free(self):
+        if 'ascon_backend_free' not in self.labels: return None
+        self.mem = {}
+        for i in range(40): self.mem[self.STATE + i] = i
+        self.regions = [(self.STATE, self.STATE + 40)]
+        entry = self.entry; self.entry = 'ascon_backend_free'
+        try: steps = self.run_call([self.STATE])
+        finally: self.entry = entry
+        regs, sp = self.check_abi()
+        same = all(self.mem.get(self.STATE + i) == i for i in range(40))
+        return dict(regs=regs, sp=sp, guard=1 if (not self.bad_access and same) else 0, steps=steps)
+
     def run_masked(self, st, first_round, rng, sp0=None):
         """masked permutation on the direct (byte-wise XOR) share layout of the AVR build: word w, share k, byte j at
         STATE + (w * MAX_SHARES + k) * 8 + j, value = XOR of the shares; `preserve` = nshares - 1 random words"""
@@ -988,6 +1026,10 @@ def events(c, ev, sts, arches=None):
                     ev.append({'e': 'asm.permute', 'arch': arch, 'fn': 'permute', 'r': r, 'in': list(s), 'out': list(res['out']),
                                'regs': res['regs'], 'sp': res['sp'], 'guard': res['guard']})
                     c.distinct([(arch, r, s)])
+            if 'shares' not in ARCH[arch]:
+                fr = m.run_free()
+                if fr is not None:
+                    ev.append({'e': 'asm.free', 'arch': arch, 'regs': fr['regs'], 'sp': fr['sp'], 'guard': fr['guard']}); c.distinct([(arch, 'free')])
             done.append(arch)
         except AsmError as e:
             ev.append({'e': 'Fault', 'kind': 'interpreter: %s: %s' % (arch, str(e)[:200]), 'line': 0})
